@@ -36,6 +36,65 @@ CHECKS.update({
          "DESIGN.md §3 C20"),
 })
 
+CHECKS.update({
+ "C05": ("runtime monitor: reference resolver (R-val) over generated multi-file projects with adversarially similar names; kind of every type node + exactly-one 'unknown type' Error",
+         "Held on every type reference observed (~65k references in 15k projects quick; 250k projects thorough) across all resolution paths (exact / simple-name / partially qualified import, unknown import, forward declaration, built-in simple / qualified / imported, unresolved) x depth 0-4 x placement; per-path counts in the evidence.",
+         "Trusted: R-val's transcription of the scoping rules in the statement; lenient where the statement is silent (several matching imports / several files under one key: any candidate). Hook H1 for the parse-stage trees.",
+         "DESIGN.md §3 C05"),
+ "C06": ("runtime monitor: reference pass for import / forward-declaration diagnostics (class, severity, range, related range) compared as multisets per file",
+         "Held on ~180k import statements and ~80k forward declarations per quick run in every class (duplicate, unresolved, resolvable-unused, used, used only deep, used via partial qualification, built-in used/unused; declaration conflict / repeated / unused / used).",
+         "Trusted: R-val; diagnostic classes recognised by the statement's own key words (unclassified diagnostics are counted and ignored).",
+         "DESIGN.md §3 C06"),
+ "C07": ("runtime monitor: exhaustive 816-cell product realised as real multi-file projects + arguments in random projects, compared with the category table of the statement",
+         "Exhaustive over the finite product 17 categories x 4 directions x method oneway x interface oneway x 3 positions (categories arise through the real resolver), plus ~30k arguments in random projects per quick run.",
+         "Trusted: R-val's category table (void held to the primitives' rule); reference resolver for categories.",
+         "DESIGN.md §3 C07"),
+ "C08": ("runtime monitor: exhaustive container shapes to depth 2 (quick) / 3 (thorough) over 17 leaf categories in 4 syntactic positions + containers in random projects, compared with the element tables",
+         "Every array/list/map node at any depth judged: ~5.5k shapes x 4 positions exhaustive at depth <= 2 quick (depth 3 sampled), depth 3 exhaustive in thorough, plus random projects; 650+ distinct (container, child category, depth, position) cells observed.",
+         "Trusted: R-val's element tables; unresolved map key accepted with 0 or 1 Error (statement ambiguous; counted as lenient).",
+         "DESIGN.md §3 C08"),
+ "C09": ("runtime monitor: exhaustive method sequences (<= 4 quick, <= 5 thorough) over 3 names x 4 code options + random long sequences, compared with an independent single pass",
+         "Exhaustive over all 22,620 sequences of <= 4 methods (quick) / 271,452 of <= 5 (thorough) with constants interleaved, plus 6k-120k random sequences of 6-40 methods with large and zero-padded codes; related-info ranges compared.",
+         "Trusted: the reference single pass in rval.rs.",
+         "DESIGN.md §3 C09"),
+ "C10": ("runtime monitor: exhaustive interface-oneway x per-method (oneway x 17 return categories) product for <= 2 (quick) / <= 3 (thorough) methods + random projects; oneway flags, redundancy Warnings, return-type Errors",
+         "Exhaustive over 2,380 interfaces quick (+3,000 sampled triples) / 80,988 thorough, realised as 4-file projects, plus interfaces in random projects; explicit flags read from the parse-stage tree (H1).",
+         "Trusted: R-val; reference resolver for return categories.",
+         "DESIGN.md §3 C10"),
+ "C11": ("runtime monitor: repeated validation under varied insertion order, parser instance, thread (fresh hash keys) and process; element-wise equality with the first output + ascending-offset check; control measurement of hash-order variety",
+         "Held on 300 order-biased projects x ~70 runs quick (5,000 x ~210 thorough): same parser again, fresh parser, rotated/reversed/swapped insertion, 8 threads, 4 processes (subset). Evidence reports how many distinct hash iteration orders the control probe saw.",
+         "Trusted: std RandomState gives each HashMap/HashSet instance and each thread a fresh seed (measured by the control probe).",
+         "DESIGN.md §3 C11"),
+ "C12": ("runtime monitor: operation histories checked after every step against an executable model (abstract id -> content map replayed into a fresh parser); exhaustive short histories from all 125 abstract states + random long histories with real file I/O",
+         "Exhaustive: every history of length <= 2 (quick) / <= 3 (thorough) over 19 operations from each of the 125 abstract states and every history of length <= 3 / <= 4 from the empty parser (~55k quick / ~1M thorough), plus random histories of 5-40 steps over generated projects; add_file exercised on real files (ok / missing / directory / invalid UTF-8).",
+         "Trusted: the abstract map; reference results per abstract state computed by a fresh parser; diagnostics compared as multisets (order is C11's).",
+         "DESIGN.md §3 C12"),
+ "C13": ("runtime monitor: metamorphic perturbation oracle (result of the observed file before == after), with negative controls that must change the result",
+         "Held on ~19k perturbations of 4k projects quick (600k of 60k thorough): add unrelated file, remove / garbage a non-imported file, rewrite body/imports/layout of any other file keeping package, name, kind; sensitivity shown by controls (kind change / removal of an imported file).",
+         "Trusted: generator guarantees (unique keys, no ambiguous imports, unrelated package for added files).",
+         "DESIGN.md §3 C13"),
+ "C15": ("runtime monitor: reference pre-order traversal (R-walk) compared by node address with walk_symbols / filter_symbols / find_symbol / walk_types / walk_methods / walk_args under all filter levels and predicate families",
+         "Held on 20k trees quick (300k thorough) x 3 filter levels x predicates 'k-th visited' for every k, 'kind K' for all 11 variants, 'name N' for every name and one absent (~3M filter/find calls quick).",
+         "Trusted: R-walk order (array element before the array, otherwise node before parameters).",
+         "DESIGN.md §3 C15"),
+ "C16": ("runtime monitor: every (line, column) position of generated documents in all layouts probed at 3 filter levels against the first R-walk symbol whose name range contains it",
+         "Held on ~15M probes quick (8k documents: multi-line, CRLF, multi-byte text before names, qualified names split over lines; plus positions outside the document).",
+         "Trusted: R-walk; line/column agreement of ranges with the text is C04's matter.",
+         "DESIGN.md §3 C16"),
+ "C17": ("runtime monitor: symbol names of generated multi-file projects compared with the generator's model and with the registration key; type symbols compared with the item symbol they resolve to",
+         "Held on 8k projects quick (120k thorough): every item kind x package depth 1-4, members, named/unnamed arguments, imports, package, and every type symbol resolved to an item of the project.",
+         "Trusted: the project model (names as written).",
+         "DESIGN.md §3 C17"),
+ "C18": ("runtime monitor: R-doc (expected documentation computed from a doc model of paragraphs/lines/words/tags) over generated documents with controlled comment situations in front of every documentable construct",
+         "Held on ~100k documentable constructs per quick run (15k documents) in every situation class x construct kind (table in the evidence), 4 decoration styles, LF/CRLF, ASCII / accented / CJK / emoji words.",
+         "Trusted: the doc model -> expected text rule of the statement; domain restrictions as stated by the property.",
+         "DESIGN.md §3 C18"),
+ "C19": ("runtime monitor: RON 0.7.1 and serde_json round trip of parse-stage and validated trees from generated projects and wild-layout documents, compared with PartialEq; per-field present/absent coverage",
+         "Held on ~40k trees quick (600k thorough) with every optional field present and absent and all type kinds (coverage table in the evidence).",
+         "Trusted: ron 0.7.1, serde_json.",
+         "DESIGN.md §3 C19"),
+})
+
 NOT_YET = {}
 ALL = ["C%02d" % i for i in range(1, 21)]
 
